@@ -1262,4 +1262,82 @@ theorem expr_pure_correct (K : PCtx) (wf : K.WF) : ∀ (fuel : Nat) (e : X.Expr)
               rw [if_pos ha0] at this
               rw [hvv]; exact this
 
+/-! ### Values as words: integers, and the addresses of global arrays -/
+
+/-- The machine word that stands for a value of the reference semantics. -/
+def wordOf (abase : Nat → Nat) : Val → Word
+  | .int w => w
+  | .arr (.glob id) => BitVec.ofNat 32 (abase id)
+  | .arr (.lit _) => 0
+
+/-- Values that have a word: no string literals. -/
+def okV : Val → Bool
+  | .arr (.lit _) => false
+  | _ => true
+
+/-- An array-valued call-free expression is a name. -/
+theorem eval_pure_arr (xc : X.Ctx) (fuel : Nat) (e : X.Expr) (σ σ' : X.St) (r : ArrRef) (hp : pureE e = true)
+    (h : X.eval fuel xc e σ = .ok (.arr r) σ') :
+    ∃ n, e = .name n ∧ X.tick xc σ = some σ' ∧ X.readName xc σ' n = .ok (.arr r) := by
+  cases fuel with
+  | zero => unfold X.eval at h; simp at h
+  | succ f =>
+    cases e with
+    | num x => have := (eval_num _ _ _ _ _ _ h).1; simp at this
+    | bool b => have := (eval_bool _ _ _ _ _ _ h).1; simp at this
+    | name n => exact ⟨n, rfl, eval_name _ _ _ _ _ _ h⟩
+    | str bs => simp [pureE] at hp
+    | call g args => simp [pureE] at hp
+    | syscall id args => simp [pureE] at hp
+    | sub n i => obtain ⟨_, _, _, _, _, _, _, _, h5⟩ := eval_sub _ _ _ _ _ _ _ h; simp at h5
+    | un op x =>
+      cases op with
+      | neg => obtain ⟨_, _, _, _, h3⟩ := eval_neg _ _ _ _ _ _ h; simp at h3
+      | not => obtain ⟨_, _, _, _, _, h3⟩ := eval_not _ _ _ _ _ _ h; simp at h3
+    | bin op l r' =>
+      by_cases hop : isArith op = true
+      · obtain ⟨_, _, _, _, _, _, _, _, _, h5⟩ := eval_arith _ _ _ _ _ _ _ _ hop h; simp at h5
+      · cases op <;> simp only [isArith, not_true_eq_false] at hop
+        · obtain ⟨_, _, _, _, _, _, h4⟩ := eval_and _ _ _ _ _ _ _ h
+          rcases h4 with ⟨_, hv, _⟩ | ⟨_, _, _, _, hv⟩ <;> simp at hv
+        · obtain ⟨_, _, _, _, _, _, h4⟩ := eval_or _ _ _ _ _ _ _ h
+          rcases h4 with ⟨_, hv, _⟩ | ⟨_, _, _, _, hv⟩ <;> simp at hv
+
+/-- **Actuals**: the code of a call-free expression leaves the word of its value - an integer, or
+    the address of the array a name denotes - in areg. -/
+theorem expr_pure_val (K : PCtx) (wf : K.WF) (fuel : Nat) (e : X.Expr) (σ : X.St) (v : Val) (σ' : X.St)
+    (hp : pureE e = true) (hev : X.eval fuel K.xc e σ = .ok v σ') :
+    ExecAt true K (optExpr (annotate K.ρ e)) (wordOf K.abase v) σ := by
+  cases v with
+  | int w => exact expr_pure_correct K wf fuel e σ w σ' hp hev
+  | arr r =>
+    obtain ⟨n, rfl, ht, hrd⟩ := eval_pure_arr K.xc fuel _ σ σ' r hp hev
+    intro gs code gs' i a b mem hg hat hr hsz hnl hci
+    have hs := tick_same _ _ _ ht
+    have hr' := hr.same hs
+    obtain ⟨id, ad, hid, hloc, hlt, hptr⟩ := hr'.aptr n r hrd
+    subst hid
+    have hρ : K.ρ n = none := by
+      cases hρ : K.ρ n with
+      | none => rfl
+      | some c =>
+        have := (hr'.vals n c hρ).read
+        rw [hrd] at this
+        simp at this
+    simp only [annotate, hρ, optExpr] at hg
+    obtain ⟨sym, hl, hcode, hgs⟩ := genExpr_name_inv _ _ _ _ _ _ hg
+    subst hcode; subst hgs
+    have := exec_genVar K wf .A n sym σ i a b mem σ.io ad hl hat hr hloc hlt
+    exact ⟨b, mem, by simpa [hptr, wordOf] using this, hr, FrmC.refl _ _ _ _⟩
+
+theorem eval_pure_okV (K : PCtx) (fuel : Nat) (e : X.Expr) (σ : X.St) (v : Val) (σ' : X.St) (mem : Mem)
+    (hp : pureE e = true) (hr : Rep K σ mem) (hev : X.eval fuel K.xc e σ = .ok v σ') : okV v = true := by
+  cases v with
+  | int w => rfl
+  | arr r =>
+    obtain ⟨n, rfl, ht, hrd⟩ := eval_pure_arr K.xc fuel _ σ σ' r hp hev
+    obtain ⟨id, _, hid, _⟩ := (hr.same (tick_same _ _ _ ht)).aptr n r hrd
+    subst hid
+    rfl
+
 end Hex.C01s
